@@ -249,6 +249,10 @@ pub struct Plan {
     pub delay_key: u64,
     pub rand_key: u64,
     pub time_cap_us: u64,
+    /// never set by the generator: lets quiche be configured with datagrams larger than
+    /// s2n-quic's receive buffer (finding F-C07-1, see findings/)
+    #[serde(default)]
+    pub allow_oversize_to_s2n: bool,
 }
 
 impl Plan {
@@ -256,13 +260,6 @@ impl Plan {
         match self.role {
             Role::S2nServer => Side::Quiche,
             Role::S2nClient => Side::S2n,
-        }
-    }
-    pub fn side_of_dir(&self, d: Dir) -> Side {
-        // the sender of datagrams travelling in direction d
-        match d {
-            Dir::C2S => self.client_side(),
-            Dir::S2C => self.client_side().peer(),
         }
     }
     pub fn total_bytes(&self) -> u64 {
@@ -309,7 +306,7 @@ fn pick_window(r: &mut Rng, small: bool) -> u64 {
 
 fn gen_s2n(r: &mut Rng, small: bool) -> S2nCfg {
     let mut c = S2nCfg::default();
-    let mut pw = |r: &mut Rng| -> u64 {
+    let pw = |r: &mut Rng| -> u64 {
         if !small && r.chance(1, 2) {
             0
         } else {
@@ -438,6 +435,7 @@ pub fn plan_for(seed: u64) -> Plan {
         delay_key: r.next(),
         rand_key: r.next(),
         time_cap_us: 0,
+        allow_oversize_to_s2n: false,
     };
     if r.chance(1, 2) {
         plan.jitter_us = r.pick(&[10u64, 500, 5_000, 30_000]).min(plan.base_delay_us * 2);
@@ -571,6 +569,12 @@ pub fn normalise(plan: &mut Plan) {
     if !q.discover_pmtu {
         q.max_send_udp = q.max_send_udp.min(path as u64);
     }
+    // s2n-quic's receive buffers hold `max_mtu` bytes and it does not advertise
+    // max_udp_payload_size (finding F-C07-1): an operator has to configure the peer's datagram
+    // size by hand, exactly as for the path MTU
+    if !plan.allow_oversize_to_s2n {
+        q.max_send_udp = q.max_send_udp.min((s.max_mtu - 28) as u64);
+    }
     q.max_stream_window = q.max_stream_window.max(q.bidi_local).max(q.bidi_remote).max(q.uni);
     q.max_connection_window = q.max_connection_window.max(q.initial_max_data);
     if plan.role == Role::S2nServer {
@@ -579,6 +583,11 @@ pub fn normalise(plan: &mut Plan) {
         // zero-length *source* id is fine
     } else {
         s.retry = false;
+    }
+    // one connection-id length per endpoint (the demultiplexer parses short headers with it);
+    // a Retry needs a non-empty id to swap in
+    if q.retry && q.cid_len < 8 {
+        q.cid_len = 8;
     }
     if q.cid_len == 0 {
         q.issue_cids = false;
